@@ -171,6 +171,31 @@ class Ctx:
     def labels(self):
         return [t[0] for t in self._st.trace]
 
+    def calls(self, label, failed=None):
+        """Number of calls to a contract label on this path (python int). failed: None both, True only raising, False only normal."""
+        n = 0
+        for l, _ in self._st.trace:
+            if l == label and failed in (None, False):
+                n += 1
+            elif l == label + "!raise" and failed in (None, True):
+                n += 1
+        return n
+
+    def calls_in_iteration(self, label, failed=None):
+        """Like calls(), counting only what happened since the innermost loop head on this path."""
+        tr = list(self._st.trace)
+        idx = max([i for i, (l, _) in enumerate(tr) if l == "loop*"] or [-1])
+        n = 0
+        for l, _ in tr[idx + 1:]:
+            if l == label and failed in (None, False):
+                n += 1
+            elif l == label + "!raise" and failed in (None, True):
+                n += 1
+        return n
+
+    def in_loop(self):
+        return any(l == "loop*" for l, _ in self._st.trace)
+
     @property
     def self(self):
         ref = self._recv if self._recv is not None else self._st.env.get("self")
